@@ -66,7 +66,8 @@ def run_config(rep, impl, cfg, opts, world, vcs, tags=(), kill=False):
     status = {0: "", 1: " M other.txt\n", 2: " M a.txt\n", 3: "?? other.txt\n"}[dirty]
     if vcs == "fakehg":
         status = {0: "", 1: "M other.txt\n", 2: "M a.txt\n", 3: "? other.txt\n"}[dirty]
-    vcs_cfg = dict(tags=list(tags), status=status, remote="origin" if remote else None, fail=[fail] if fail else [], usable=True, watch="a.txt")
+    # a failing VCS command may or may not say something on stderr
+    vcs_cfg = dict(tags=list(tags), status=status, remote="origin" if remote else None, fail=[fail] if fail else [], fail_silent=hash((cfg, opts, world)) % 2 == 0, usable=True, watch="a.txt")
     # some git projects are laid out like a linked worktree / submodule (.git is a file); the steps are the same
     git_file = vcs == "fakegit" and (hash((cfg, opts, world)) % 4 == 0)
     prj = project.TempProject("MAJOR.MINOR.PATCH", "1.2.3", files={"a.txt": ["ver = {version}"]}, commit=commit, tag=tag, push=push,
@@ -219,7 +220,11 @@ def run(rep, tier, seed, model_ok=True, effort=1):
         rep.sample(dict(args=" ".join(args), config=cfg, trace=trace, exit=code))
     # hooks receive the VCS-resolved old version (a tag newer than the config value), and a hook killed by a signal counts as failed
     full = ((True, True, True, "ok", "ok"), (None, None, None, False, False, False, False), (True, True, 0, False, None))
-    code, trace, hook_lines, args, logs = run_config(rep, impl, full[0], full[1], full[2], "fakegit", tags=["1.2.5", "1.0.0"])
+    os.environ["BUMPVER_OLD_VERSION"], os.environ["BUMPVER_NEW_VERSION"] = "2024.7", "2024.8"     # e.g. exported by an outer job: the hooks get THIS run's versions
+    try:
+        code, trace, hook_lines, args, logs = run_config(rep, impl, full[0], full[1], full[2], "fakegit", tags=["1.2.5", "1.0.0"])
+    finally:
+        os.environ.pop("BUMPVER_OLD_VERSION", None); os.environ.pop("BUMPVER_NEW_VERSION", None)
     rep.case(("hook-env-newer-tag",))
     properties(rep, full[0], full[1], full[2], "fakegit", code, trace, hook_lines, args, old_version="1.2.5", new_version="1.2.6")
     if code != 0 or len(hook_lines) != 2:
